@@ -171,7 +171,34 @@ def cases(tier, seed, rng):
     # position tests, per-column getters of a data-frame dimension; answers predicted by NixModel/SizeVec.lean
     from checks import abuse_api
     api = abuse_api.cases(tier, seed + 1617, random.Random(seed * 7919 + 17))
-    return out + api + ab + memcheck_cases(tier, seed, ab)
+    return out + api + ab + wrong_class_reads(tier, seed) + memcheck_cases(tier, seed, ab)
+
+def wrong_class_reads(tier, seed):
+    """reads and writes with a buffer of the wrong element class — strings asked of a numeric array and numbers of a string array —
+    with and without a calibration (expansion origin alone, polynomial alone, both): refused before anything is written into the
+    caller's strings (harness only: the answers are not this property's)"""
+    from vlib.runner import Case
+    from vlib.tok import f64, lst
+    rng = random.Random(seed * 48611 + 5)
+    out = []
+    for k in range(6 if tier == 'quick' else 60):
+        dt = rng.choice(['Double', 'Int32', 'Float', 'String', 'UInt8', 'Bool'])
+        n = rng.choice([2, 3, 5])
+        L = ['da_new %s [%d] none none' % (dt, n)]
+        for _ in range(rng.randint(3, 8)):
+            q = rng.random()
+            if q < 0.25: L.append('da_origin %s' % rng.choice([f64(1.5), f64(0.0), '~']))
+            elif q < 0.45: L.append('da_poly %s' % rng.choice([lst([f64(1.0), f64(2.0)]), lst([f64(0.0)]), '~', '[]']))
+            else:
+                rdt = rng.choice(['String', 'String', 'Double', 'Int32', 'Bool', 'UInt8'])
+                cnt = rng.choice([1, n, n])
+                op = rng.choice(['da_rd', 'da_rd', 'da_rdd', 'da_one vec', 'da_one rd3'])
+                if op == 'da_one vec' and rdt != 'Bool': L.append('da_one vec %s [%d] [0]' % (rdt, cnt))
+                elif op == 'da_one rd3': L.append('da_one rd3 %s [1] [0]' % rdt)
+                else: L.append('%s %s [%d] [0] %d' % (op if op.startswith('da_rd') else 'da_rd', rdt, cnt, cnt))
+        c = Case(L, 'gen:wrong-class-reads'); c.meta['no_driver'] = True
+        out.append(c)
+    return out
 
 def memcheck_cases(tier, seed, ab):
     """programs for valgrind's memcheck on the PLAIN build (meta valgrind): what the sanitizer build cannot see — reads and writes
